@@ -57,6 +57,9 @@ pub struct Case {
     pub status: u16,
     pub head: bool,
     pub ops: Vec<Op>,
+    /// the sink accepts at most this many bytes per `write` call (None: everything at once)
+    #[serde(default)]
+    pub short_write: Option<u16>,
 }
 
 pub const STATUSES: [u16; 64] = [
@@ -291,6 +294,7 @@ impl Property for C03 {
         "header values contain no CR/LF/NUL and Content-Length/Transfer-Encoding are never set by hand (documented as the user's responsibility)",
         "1xx and 304 are only checked for self-consistency (the statement does not mention them)",
         "the Date header comes from the frozen clock (hook H4)",
+        "30% of the cases write into a sink that accepts only 1–2000 bytes per write call (a nearly full send buffer); what arrives must be the same bytes",
     ];
 
     fn new(_: Tier) -> Self {
@@ -314,7 +318,8 @@ impl Property for C03 {
             Tier::Thorough => prop_oneof![8 => 0usize..=40, 2 => 200usize..=400].boxed(),
         };
         let ops = len.prop_flat_map(|n| vec(op_strategy(), n));
-        ((0usize..STATUSES.len()), prop::bool::weighted(0.25), ops).prop_map(|(s, head, ops)| Case { status: STATUSES[s], head, ops }).boxed()
+        let short = prop::option::weighted(0.3, prop_oneof![2 => 1u16..=16, 2 => 17u16..=200, 1 => 201u16..=2000]);
+        ((0usize..STATUSES.len()), prop::bool::weighted(0.25), ops, short).prop_map(|(s, head, ops, short_write)| Case { status: STATUSES[s], head, ops, short_write }).boxed()
     }
 
     fn check(&self, case: &Case, obs: &mut Obs) {
@@ -356,7 +361,13 @@ impl Property for C03 {
         CURRENT.with(|c| *c.borrow_mut() = Some(case.clone()));
         let method = if case.head { "HEAD" } else { "GET" };
         let bytes = drive::request_bytes(method, "/", &[("Host".into(), "t".into())], None);
-        let ex = match panic::catch(std::panic::AssertUnwindSafe(|| drive::drive_one(&self.router, &bytes))) {
+        if case.short_write.is_some() {
+            obs.label("short-writes")
+        }
+        let before = drive::set_write_limit(case.short_write.map(|n| n as usize));
+        let ran = panic::catch(std::panic::AssertUnwindSafe(|| drive::drive_one(&self.router, &bytes)));
+        drive::set_write_limit(before);
+        let ex = match ran {
             Ok(Ok(ex)) => ex,
             Ok(Err(e)) => {
                 obs.fail("HARNESS-BUG executor", e);
